@@ -9,12 +9,16 @@ C09 — cross-namespace isolation.
     its own permission.
   * `dyn_*`: `buildGlobalDynamic` — default deny, anything but `allow` denies, a key opens only
     its kind, `--allow-cross-namespace` opens the three secret kinds and not services.
-  * `site_reads_only_own`: tls secretName, Gateway certificateRefs, auth-tls-secret, auth-secret
-    and the auth-url pre-build only read the annotated object's namespace while their kind is denied.
-  * FULL STRENGTH `isolation` is FALSE for the code as it is; the refutations are theorems
-    (`secure_crt_bypass`, `secure_ca_bypass`, `auth_secret_reuse_bypass`,
-    `auth_url_findbackend_bypass`, `gateway_stale_permission`), and `isolation_partial` proves it
-    under the explicit side conditions that exclude exactly those five paths.
+  * `site_reads_only_own`, `reads_only_own`: every reference site (tls secretName, Gateway
+    certificateRefs, auth-tls-secret, secure-crt-secret, secure-verify-ca-secret, auth-secret,
+    auth-url) only makes the cache read the annotated object's namespace while its kind is denied.
+  * `isolation` (FULL STRENGTH, all sites / settings / haproxy-model states / values) and
+    `noninterference`; `gateway_sees_current`.
+  * historical witnesses of the five repaired paths on the `…Old` definitions
+    (`secure_crt_bypass_old`, `secure_ca_bypass_old`, `auth_secret_reuse_bypass_old`,
+    `auth_url_findbackend_bypass_old`, `gateway_stale_permission_old`), each paired with the
+    repaired model's answer on the same input.
+  * `file_form_unchecked`: the known finding — a `file://` value is answered before any permission.
 -/
 namespace HapVerif.C09
 
@@ -153,202 +157,81 @@ theorem dyn_static (cm : GlobalCM) :
 
 /-! ### reference sites -/
 
-/-- sites that hand the annotated object's namespace to the getter -/
-def Site.direct : Site → Bool
-  | .tls | .gwCert | .authTLS | .authSecret | .authURL => true
-  | .secureCrt | .secureCA => false
-
-theorem site_reads_only_own (s : Site) (hs : s.direct = true) (b : Bits) (src value ns n : Str)
+/-- every site hands the annotated object's namespace to its getter: while the site's kind is
+denied, whatever the cache is asked for lives in that namespace -/
+theorem site_reads_only_own (s : Site) (b : Bits) (src value ns n : Str)
     (hb : b.get s.kind = false) (hsrc : src ≠ [])
     (h : siteResolve s b src value = .obj ns n) : ns = src := by
-  cases s <;> simp [Site.direct] at hs <;>
+  cases s <;>
     simp only [siteResolve, siteArgs] at h <;>
     exact getter_reads_only_own _ b src value ns n (by simpa [Site.getter, getterAllow, Site.kind, Bits.get] using hb) hsrc h
 
-/-! values without a slash -/
+/-- Gateway references are judged with the permissions of the current global ConfigMap -/
+theorem gateway_sees_current (s : Site) (prev cur : Bits) : bitsSeenBy s prev cur = cur := rfl
 
-theorem splitSlash_noslash (v : Str) (hv : ∀ c ∈ v, c ≠ '/') : splitSlash v = [v] := by
-  induction v with
-  | nil => rfl
-  | cons c cs ih =>
-    have hcs : ∀ x ∈ cs, x ≠ '/' := fun x hx => hv x (List.mem_cons_of_mem _ hx)
-    have hc : c ≠ '/' := hv c List.mem_cons_self
-    simp [splitSlash, ih hcs, hc]
-
-theorem gcp_noslash (v : Str) (hv : ∀ c ∈ v, c ≠ '/') : getContentProtocol v = (sSecret, v) := by
-  unfold getContentProtocol
-  have : ¬ ((v.drop (v.takeWhile isLowerAZ).length).take 3 = sSep) := by
-    intro h
-    have hm : '/' ∈ (v.drop (v.takeWhile isLowerAZ).length).take 3 := by rw [h]; decide
-    exact hv '/' (List.mem_of_mem_drop (List.mem_of_mem_take hm)) rfl
-  simp [this]
-
-/-- the two secure-* keys stay in the annotated object's namespace for a value without a slash … -/
-theorem secure_site_bare_name (s : Site) (hs : s = .secureCrt ∨ s = .secureCA) (b : Bits)
-    (src value : Str) (hv : ∀ c ∈ value, c ≠ '/') (hsrc : src ≠ []) :
-    siteResolve s b src value = .obj src value := by
-  have hss : sSecret ≠ sFile := by decide
-  rcases hs with rfl | rfl <;>
-    simp [siteResolve, siteArgs, namespacedName, splitSlash_noslash value hv, getterResolve, Site.getter,
-      gcp_noslash value hv, hss, buildResourceName, buildResourceNameK, splitKey, hsrc]
-
-/- FULL STRENGTH (what the property asks of every site):
-
-     theorem isolation (s : Site) (b : Bits) (ex : Existing) (fi : Bool) (src value ns n : Str) :
-         b.get s.kind = false → src ≠ [] → siteUses s b ex fi src value = .obj ns n → ns = src
-
-   is FALSE for the code as it is.  The refutations follow; each one is a replayable harness
-   case and has its own oracle signature. -/
-
-/-- (a) `secure-crt-secret: b/crt` on an object of namespace `a`, every permission denied: the
-cache is asked for `b/crt` with default namespace `b`, so the check compares `b` with `b`.
-Oracle signature `foreign-secret-read:secure-crt-secret`. -/
-theorem secure_crt_bypass :
-    siteResolve .secureCrt Bits.none ['a'] ['b', '/', 'c', 'r', 't'] = .obj ['b'] ['c', 'r', 't'] := by decide
-
-/-- same for `secure-verify-ca-secret` (`foreign-secret-read:secure-verify-ca-secret`) -/
-theorem secure_ca_bypass :
-    siteResolve .secureCA Bits.none ['a'] ['b', '/', 'c', 'a'] = .obj ['b'] ['c', 'a'] := by decide
-
-/-- what the table does: the namespace written in the value becomes the default namespace -/
-theorem secure_site_any_namespace (s : Site) (hs : s = .secureCrt ∨ s = .secureCA) (b : Bits)
-    (src ns n : Str) (hns : ∀ c ∈ ns, c ≠ '/') (hn : ∀ c ∈ n, c ≠ '/') (hne : ns ≠ []) :
-    siteResolve s b src (ns ++ '/' :: n) = .obj ns n := by
-  have hsp : splitSlash (ns ++ '/' :: n) = [ns, n] := by
-    induction ns with
-    | nil => simp [splitSlash, splitSlash_noslash n hn]
-    | cons c cs ih =>
-      have hc : c ≠ '/' := hns c List.mem_cons_self
-      have hcs : ∀ x ∈ cs, x ≠ '/' := fun x hx => hns x (List.mem_cons_of_mem _ hx)
-      by_cases hcsn : cs = []
-      · subst hcsn; simp [splitSlash, splitSlash_noslash n hn, hc]
-      · simp [splitSlash, ih hcs hcsn, hc]
-  have hss : sSecret ≠ sFile := by decide
-  rcases hs with rfl | rfl <;>
-    simp [siteResolve, siteArgs, namespacedName, hsp, getterResolve, Site.getter,
-      gcp_noslash n hn, hss, buildResourceName, buildResourceNameK, splitKey,
-      splitSlash_noslash n hn, hne]
-
-def exUserlistB : Existing :=
-  { userlist := fun ns n => ns == ['b'] && n == ['p', 'w'], backend := fun _ _ => false }
-def exBackendB : Existing :=
-  { userlist := fun _ _ => false, backend := fun ns n => ns == ['b'] && n == ['s', 'v', 'c'] }
-
-/-- (c) `auth-secret: b/pw` while namespace b's own ingress already built the userlist `b_pw`:
-`Userlists().Find` answers before the cache is asked. Signature `foreign-secret-used:auth-secret`. -/
-theorem auth_secret_reuse_bypass :
-    siteUses .authSecret Bits.none exUserlistB true ['a'] ['b', '/', 'p', 'w'] = .obj ['b'] ['p', 'w'] ∧
-    siteReads .authSecret Bits.none exUserlistB true ['a'] ['b', '/', 'p', 'w'] = none ∧
-    siteUses .authSecret Bits.none Existing.none true ['a'] ['b', '/', 'p', 'w'] = .denied := by
-  refine ⟨?_, ?_, ?_⟩ <;> decide
-
-/-- (b) `auth-url: svc://b/svc:port` while a backend for `b/svc:port` exists: the pre-build is
-refused (`GetService` is checked) but `FindBackend` finds the other tenant's backend.
-Signature `foreign-service-used:auth-url-svc`. -/
-theorem auth_url_findbackend_bypass :
-    siteReads .authURL Bits.none exBackendB true ['a'] ['b', '/', 's', 'v', 'c'] = some .denied ∧
-    siteUses .authURL Bits.none exBackendB true ['a'] ['b', '/', 's', 'v', 'c'] = .obj ['b'] ['s', 'v', 'c'] ∧
-    siteUses .authURL Bits.none Existing.none true ['a'] ['b', '/', 's', 'v', 'c'] = .denied := by
-  refine ⟨?_, ?_, ?_⟩ <;> decide
-
-/-- (e) Gateway certificateRefs are evaluated with the permissions of the PREVIOUS reconciliation:
-after the operator turns `cross-namespace-secrets-crt` from allow to deny the reference to
-`b/crt` is still followed.  Signature `foreign-secret-read:gateway-certificate-ref`. -/
-theorem gateway_stale_permission :
-    let prev := buildGlobalDynamic false { crt := sAllow }
-    let cur := buildGlobalDynamic false {}
-    cur.crt = false ∧
-    siteResolve .gwCert (bitsSeenBy .gwCert prev cur) ['a'] ['b', '/', 'c', 'r', 't'] = .obj ['b'] ['c', 'r', 't'] ∧
-    siteResolve .tls (bitsSeenBy .tls prev cur) ['a'] ['b', '/', 'c', 'r', 't'] = .denied := by
-  refine ⟨?_, ?_, ?_⟩ <;> decide
-
-/-- auth-url: when the pre-build (`GetService`, checked) succeeds with services denied, the
-namespace `setAuthExternal` looks the backend up in is the annotated object's -/
-theorem authURL_prebuilt_own (b : Bits) (src value tns tn rns rn : Str)
-    (hb : b.get Site.authURL.kind = false) (hsrc : src ≠ [])
-    (hnn : namespacedName src value = some (tns, tn)) (htns : ¬ tns = [])
-    (hr : siteResolve .authURL b src value = .obj rns rn) : tns = src := by
-  have hsvc : b.svc = false := by simpa [Site.kind, Bits.get] using hb
-  simp only [siteResolve, siteArgs, getterResolve, Site.getter, buildResourceName, splitKey, hsvc] at hr
-  simp only [namespacedName] at hnn
-  split at hnn
-  · simp only [Option.some.injEq, Prod.mk.injEq] at hnn; exact hnn.1.symm
-  · rename_i x y hxy
-    simp only [Option.some.injEq, Prod.mk.injEq] at hnn
-    obtain ⟨rfl, rfl⟩ := hnn
-    simp only [hxy, buildResourceNameK, hsrc, if_false, htns, Bool.false_or] at hr
-    by_cases hx : x = src
-    · exact hx
-    · simp [hx] at hr
-  · simp at hnn
-
-/-- the side conditions that exclude exactly the paths above -/
-structure SafeUse (s : Site) (ex : Existing) (src value : Str) : Prop where
-  /-- secure-* keys: the value has no slash -/
-  secure : (s = .secureCrt ∨ s = .secureCA) → ∀ c ∈ value, c ≠ '/'
-  /-- auth-secret: no userlist of another namespace exists -/
-  userlist : s = .authSecret → ∀ ns n, ex.userlist ns n = true → ns = src
-  /-- auth-url: no backend of another namespace exists -/
-  backend : s = .authURL → ∀ ns n, ex.backend ns n = true → ns = src
-
-/-- **isolation, partial**: while the kind of a site is denied (permissions as seen by the site
-— for Gateway references see `gateway_stale_permission`), under `SafeUse` whatever object
-reaches the configuration lives in the namespace of the annotated object -/
-theorem isolation_partial (s : Site) (b : Bits) (ex : Existing) (fi : Bool) (src value ns n : Str)
-    (hb : b.get s.kind = false) (hsrc : src ≠ []) (hsafe : SafeUse s ex src value)
+/-- **isolation** (full strength, every site, every settings, every state of the haproxy model,
+every value): while the kind of a site is denied, whatever object reaches the configuration
+lives in the namespace of the annotated object -/
+theorem isolation (s : Site) (b : Bits) (ex : Existing) (fi : Bool) (src value ns n : Str)
+    (hb : b.get s.kind = false) (hsrc : src ≠ [])
     (h : siteUses s b ex fi src value = .obj ns n) : ns = src := by
   cases s with
-  | tls => exact site_reads_only_own .tls rfl b src value ns n hb hsrc h
-  | gwCert => exact site_reads_only_own .gwCert rfl b src value ns n hb hsrc h
-  | authTLS => exact site_reads_only_own .authTLS rfl b src value ns n hb hsrc h
-  | secureCrt =>
-    have := secure_site_bare_name .secureCrt (Or.inl rfl) b src value (hsafe.secure (Or.inl rfl)) hsrc
-    simp only [siteUses, this, Res.obj.injEq] at h
-    exact h.1.symm
-  | secureCA =>
-    have := secure_site_bare_name .secureCA (Or.inr rfl) b src value (hsafe.secure (Or.inr rfl)) hsrc
-    simp only [siteUses, this, Res.obj.injEq] at h
-    exact h.1.symm
-  | authSecret =>
-    simp only [siteUses] at h
-    split at h
-    · rename_i kns kn _
-      split at h
-      · rename_i hex
-        simp only [Res.obj.injEq] at h
-        rw [← h.1]; exact hsafe.userlist rfl kns kn hex
-      · exact site_reads_only_own .authSecret rfl b src value ns n hb hsrc h
-    · exact site_reads_only_own .authSecret rfl b src value ns n hb hsrc h
+  | tls => exact site_reads_only_own .tls b src value ns n hb hsrc h
+  | gwCert => exact site_reads_only_own .gwCert b src value ns n hb hsrc h
+  | authTLS => exact site_reads_only_own .authTLS b src value ns n hb hsrc h
+  | secureCrt => exact site_reads_only_own .secureCrt b src value ns n hb hsrc h
+  | secureCA => exact site_reads_only_own .secureCA b src value ns n hb hsrc h
+  | authSecret => exact site_reads_only_own .authSecret b src value ns n hb hsrc h
   | authURL =>
+    have hsvc : b.svc = false := by simpa [Site.kind, Bits.get] using hb
     simp only [siteUses] at h
     split at h
     · simp at h
     · rename_i tns tn hnn
       split at h
       · simp at h
-      · rename_i htns
-        cases hr : siteResolve .authURL b src value with
-        | obj rns rn =>
-          have htn := authURL_prebuilt_own b src value tns tn rns rn hb hsrc hnn htns hr
-          simp only [hr] at h
-          split at h
-          · simp only [Res.obj.injEq] at h; rw [← h.1]; exact htn
-          · simp at h
-        | file p =>
-          simp only [hr, Bool.and_false, Bool.false_or] at h
-          split at h
-          · rename_i hex; simp only [Res.obj.injEq] at h; rw [← h.1]; exact hsafe.backend rfl tns tn hex
-          · simp at h
-        | denied =>
-          simp only [hr, Bool.and_false, Bool.false_or] at h
-          split at h
-          · rename_i hex; simp only [Res.obj.injEq] at h; rw [← h.1]; exact hsafe.backend rfl tns tn hex
-          · simp at h
-        | invalid =>
-          simp only [hr, Bool.and_false, Bool.false_or] at h
-          split at h
-          · rename_i hex; simp only [Res.obj.injEq] at h; rw [← h.1]; exact hsafe.backend rfl tns tn hex
-          · simp at h
+      · split at h
+        · simp at h
+        · rename_i hchk
+          -- the check passed with services denied: the namespace is the annotated object's
+          have htns : tns = src := by
+            by_cases hx : tns = src
+            · exact hx
+            · exact absurd ⟨hx, hsvc⟩ hchk
+          cases hr : siteResolve .authURL b src value with
+          | obj rns rn =>
+            simp only [hr] at h
+            split at h
+            · simp only [Res.obj.injEq] at h; rw [← h.1]; exact htns
+            · simp at h
+          | file p =>
+            simp only [hr, Bool.and_false, Bool.false_or] at h
+            split at h
+            · simp only [Res.obj.injEq] at h; rw [← h.1]; exact htns
+            · simp at h
+          | denied =>
+            simp only [hr, Bool.and_false, Bool.false_or] at h
+            split at h
+            · simp only [Res.obj.injEq] at h; rw [← h.1]; exact htns
+            · simp at h
+          | invalid =>
+            simp only [hr, Bool.and_false, Bool.false_or] at h
+            split at h
+            · simp only [Res.obj.injEq] at h; rw [← h.1]; exact htns
+            · simp at h
+
+/-- the reads obey the same rule (auth-url: the pre-build through `GetService`) -/
+theorem reads_only_own (s : Site) (b : Bits) (ex : Existing) (fi : Bool) (src value ns n : Str)
+    (hb : b.get s.kind = false) (hsrc : src ≠ [])
+    (h : siteReads s b ex fi src value = some (.obj ns n)) : ns = src := by
+  cases s <;> simp only [siteReads] at h
+  case authURL =>
+    split at h
+    · simp only [Option.some.injEq] at h; exact site_reads_only_own .authURL b src value ns n hb hsrc h
+    · simp at h
+  all_goals
+    simp only [Option.some.injEq] at h
+    exact site_reads_only_own _ b src value ns n hb hsrc h
 
 /-! ### noninterference -/
 
@@ -357,48 +240,109 @@ def effect (exist : Str → Str → Bool) : Res → Res
   | .obj ns n => if exist ns n then .obj ns n else .invalid
   | r => r
 
-/-- **noninterference, partial**: two clusters that hold the same objects in the annotated
-object's namespace give the same result, whatever else differs (in particular: with and without
-any foreign object), while the site's kind is denied and under `SafeUse` -/
-theorem noninterference_partial (s : Site) (b : Bits) (ex : Existing) (fi : Bool) (src value : Str)
-    (hb : b.get s.kind = false) (hsrc : src ≠ []) (hsafe : SafeUse s ex src value)
+/-- **noninterference**: two clusters that hold the same objects in the annotated object's
+namespace give the same result, whatever else differs (in particular: with and without any
+foreign object), while the site's kind is denied -/
+theorem noninterference (s : Site) (b : Bits) (ex : Existing) (fi : Bool) (src value : Str)
+    (hb : b.get s.kind = false) (hsrc : src ≠ [])
     (w w' : Str → Str → Bool) (hagree : ∀ n, w src n = w' src n) :
     effect w (siteUses s b ex fi src value) = effect w' (siteUses s b ex fi src value) := by
   cases hu : siteUses s b ex fi src value with
   | obj ns n =>
-    have := isolation_partial s b ex fi src value ns n hb hsrc hsafe hu
+    have := isolation s b ex fi src value ns n hb hsrc hu
     subst this
     simp [effect, hagree n]
   | file p => rfl
   | denied => rfl
   | invalid => rfl
 
-/-- and it fails without the side condition: the secure-crt-secret bypass distinguishes a
-cluster with `b/crt` from one without -/
-theorem noninterference_fails :
-    ∃ (w w' : Str → Str → Bool), (∀ n, w ['a'] n = w' ['a'] n) ∧
-      effect w (siteUses .secureCrt Bits.none Existing.none true ['a'] ['b', '/', 'c', 'r', 't']) ≠
-      effect w' (siteUses .secureCrt Bits.none Existing.none true ['a'] ['b', '/', 'c', 'r', 't']) :=
-  ⟨fun _ _ => true, fun ns _ => ns == ['a'], fun _ => rfl, by decide⟩
-
-/-- non-vacuity of `isolation_partial`: own references resolve, foreign ones are refused -/
+/-- non-vacuity: own references resolve, foreign ones are refused by every site, also when another
+namespace's userlist / backend already exist -/
 example :
     siteUses .tls Bits.none Existing.none true ['a'] ['c', 'r', 't'] = .obj ['a'] ['c', 'r', 't'] ∧
     siteUses .tls Bits.none Existing.none true ['a'] ['b', '/', 'c', 'r', 't'] = .denied ∧
+    siteUses .gwCert Bits.none Existing.none true ['a'] ['b', '/', 'c', 'r', 't'] = .denied ∧
     siteUses .authTLS ⟨true, false, true, true⟩ Existing.none true ['a'] ['b', '/', 'c', 'a'] = .denied ∧
+    siteUses .secureCrt ⟨false, true, true, true⟩ Existing.none true ['a'] ['b', '/', 'c', 'r', 't'] = .denied ∧
+    siteUses .secureCA ⟨true, false, true, true⟩ Existing.none false ['a'] ['b', '/', 'c', 'a'] = .denied ∧
     siteUses .authSecret ⟨true, true, false, true⟩ Existing.none true ['a'] ['b', '/', 'p', 'w'] = .denied ∧
     siteUses .authURL ⟨true, true, true, false⟩ Existing.none true ['a'] ['b', '/', 's', 'v', 'c'] = .denied ∧
     siteUses .authURL Bits.none Existing.none true ['a'] ['s', 'v', 'c'] = .obj ['a'] ['s', 'v', 'c'] ∧
-    siteUses .secureCrt Bits.none Existing.none true ['a'] ['c', 'r', 't'] = .obj ['a'] ['c', 'r', 't'] := by
-  refine ⟨?_, ?_, ?_, ?_, ?_, ?_, ?_⟩ <;> decide
+    siteUses .secureCrt Bits.none Existing.none true ['a'] ['c', 'r', 't'] = .obj ['a'] ['c', 'r', 't'] ∧
+    siteUses .secureCrt ⟨true, false, false, false⟩ Existing.none true ['a'] ['b', '/', 'c', 'r', 't'] = .obj ['b'] ['c', 'r', 't'] := by
+  refine ⟨?_, ?_, ?_, ?_, ?_, ?_, ?_, ?_, ?_, ?_, ?_⟩ <;> decide
+
+/-! ### historical witnesses: the behaviour before the repairs (definitions `…Old`), and the same
+inputs on the repaired model.  Each one is a corpus line of the harness. -/
+
+def exUserlistB : Existing :=
+  { userlist := fun ns n => ns == ['b'] && n == ['p', 'w'], backend := fun _ _ => false }
+def exBackendB : Existing :=
+  { userlist := fun _ _ => false, backend := fun ns n => ns == ['b'] && n == ['s', 'v', 'c'] }
+
+/-- (a) before c70e6fc `secure-crt-secret: b/crt` on an object of namespace `a`, every permission
+denied, asked the cache for `b/crt` with default namespace `b` (signature
+`foreign-secret-read:secure-crt-secret`, replay `C09 site securecrt ing other 00000 0`) -/
+theorem secure_crt_bypass_old :
+    siteResolveOld .secureCrt Bits.none ['a'] ['b', '/', 'c', 'r', 't'] = .obj ['b'] ['c', 'r', 't'] ∧
+    siteResolve .secureCrt Bits.none ['a'] ['b', '/', 'c', 'r', 't'] = .denied := by
+  refine ⟨?_, ?_⟩ <;> decide
+
+/-- same for `secure-verify-ca-secret` (`C09 site secureca svc other 00000 0`) -/
+theorem secure_ca_bypass_old :
+    siteResolveOld .secureCA Bits.none ['a'] ['b', '/', 'c', 'a'] = .obj ['b'] ['c', 'a'] ∧
+    siteResolve .secureCA Bits.none ['a'] ['b', '/', 'c', 'a'] = .denied := by
+  refine ⟨?_, ?_⟩ <;> decide
+
+/-- (c) before 6c4b527 `auth-secret: b/pw` reused namespace b's userlist `b_pw` without asking
+the cache (`foreign-secret-used:auth-secret`, `C09 site authsecret ing other 00000 1`) -/
+theorem auth_secret_reuse_bypass_old :
+    siteUsesOld .authSecret Bits.none exUserlistB true ['a'] ['b', '/', 'p', 'w'] = .obj ['b'] ['p', 'w'] ∧
+    siteReadsOld .authSecret Bits.none exUserlistB true ['a'] ['b', '/', 'p', 'w'] = none ∧
+    siteUses .authSecret Bits.none exUserlistB true ['a'] ['b', '/', 'p', 'w'] = .denied ∧
+    siteReads .authSecret Bits.none exUserlistB true ['a'] ['b', '/', 'p', 'w'] = some .denied := by
+  refine ⟨?_, ?_, ?_, ?_⟩ <;> decide
+
+/-- (b) before 05277b5 `auth-url: svc://b/svc:port` took the backend another tenant created
+(`foreign-service-used:auth-url-svc`, `C09 site authurl ing other 00000 1`) -/
+theorem auth_url_findbackend_bypass_old :
+    siteUsesOld .authURL Bits.none exBackendB true ['a'] ['b', '/', 's', 'v', 'c'] = .obj ['b'] ['s', 'v', 'c'] ∧
+    siteUses .authURL Bits.none exBackendB true ['a'] ['b', '/', 's', 'v', 'c'] = .denied ∧
+    siteUses .authURL ⟨false, false, false, true⟩ exBackendB false ['a'] ['b', '/', 's', 'v', 'c'] = .obj ['b'] ['s', 'v', 'c'] := by
+  refine ⟨?_, ?_, ?_⟩ <;> decide
+
+/-- (e) before bce3fec Gateway certificateRefs were judged with the permissions of the PREVIOUS
+reconciliation (`foreign-secret-read:gateway-certificate-ref`, `C09 site gwcert ing other 00000 2`) -/
+theorem gateway_stale_permission_old :
+    let prev := buildGlobalDynamic false { crt := sAllow }
+    let cur := buildGlobalDynamic false {}
+    cur.crt = false ∧
+    siteResolve .gwCert (bitsSeenByOld .gwCert prev cur) ['a'] ['b', '/', 'c', 'r', 't'] = .obj ['b'] ['c', 'r', 't'] ∧
+    siteResolve .gwCert (bitsSeenBy .gwCert prev cur) ['a'] ['b', '/', 'c', 'r', 't'] = .denied := by
+  refine ⟨?_, ?_, ?_⟩ <;> decide
+
+/- KNOWN FINDING (not repaired, outside the namespace model): a `file://` value is a local path
+and carries no namespace; `getterResolve` answers `.file` before any permission is consulted.
+A namespaced object can therefore name the controller's own copy of another namespace's secret
+(`<certs dir>/b_crt.pem`, `<cacerts dir>/ca_b_ca.pem`).  Oracle signatures
+`foreign-secret-used:{tls-secret-name,gateway-certificate-ref,secure-crt-secret,secure-verify-ca-secret,auth-tls-secret}-file`. -/
+theorem file_form_unchecked (g : Getter) (hg : g = .tls ∨ g = .pw) (b : Bits) (dns path : Str)
+    (hp : ∀ c ∈ path, c ≠ '\n') :
+    getterResolve g b dns ('f' :: 'i' :: 'l' :: 'e' :: ':' :: '/' :: '/' :: path) = .file path := by
+  have hgcp : getContentProtocol ('f' :: 'i' :: 'l' :: 'e' :: ':' :: '/' :: '/' :: path) = (sFile, path) := by
+    simp [getContentProtocol, sFile, sSep, isLowerAZ, List.takeWhile]
+    intro h; exact absurd rfl (hp _ h)
+  rcases hg with rfl | rfl <;> simp [getterResolve, hgcp]
 
 /-! ### facts regenerated from the Go source -/
 
 set_option maxRecDepth 10000 in
 /-- every getter passes its own permission; the name helpers, the regex, buildGlobalDynamic and
-validateAllowDeny have the modelled shape; THE TABLE of reference sites; Userlists().Find comes
-before the cache; the Gateway converter runs before the ingress converter and only `syncFull`
-calls UpdateGlobalConfig.  (A fix of one of the findings changes a fact: the model is then revisited.) -/
+validateAllowDeny have the modelled shape; THE TABLE of reference sites (all of them hand over the
+annotated object's namespace and the raw value); the cache is asked before Userlists().Find; the
+auth-url permission check precedes FindBackend; a certificate taken from a file is parsed; the
+ingress converter (which applies the dynamic config in its constructor) is created before any
+converter runs. -/
 theorem facts_c09 :
     Facts.c09GetterPermission =
       ["GetService: defaultNamespace, \"service\", serviceName, c.dynconfig.CrossNamespaceServices",
@@ -428,16 +372,24 @@ theorem facts_c09 :
       ["tls: source.Namespace, secretName",
        "gateway-cert: namespace, string(certRef.Name)",
        "auth-tls-secret: tlsSecret.Source.Namespace, tlsSecret.Value",
-       "secure-crt-secret: namespace, name",
-       "secure-verify-ca-secret: namespace, name",
+       "secure-crt-secret: defaultNamespace, crt.Value",
+       "secure-verify-ca-secret: defaultNamespace, ca.Value",
        "auth-secret: authSecret.Source.Namespace, authSecret.Value",
        "auth-url: namespace, name, urlPort"] ∧
-    Facts.c09SecureNamespacedName =
-      ["namespace, name, err := crt.NamespacedName()", "namespace, name, err := ca.NamespacedName()"] ∧
-    Facts.c09UserlistFindBeforeCache = true ∧
+    Facts.c09SecureDefaultNamespace =
+      ["defaultNamespace, err := crt.defaultNamespace()", "defaultNamespace, err := ca.defaultNamespace()"] ∧
+    Facts.c09DefaultNamespace.take 2 = ["if cv.Source != nil", "return cv.Source.Namespace, nil"] ∧
+    Facts.c09CacheBeforeUserlistFind = true ∧
+    Facts.c09AuthURLCheck =
+      ["url.Source != nil && namespace != url.Source.Namespace && !c.options.DynamicConfig.CrossNamespaceServices"] ∧
+    Facts.c09AuthURLCheckBeforeFind = true ∧
+    Facts.c09ReadCertificateFileCalls = 1 ∧
     Facts.c09SyncOrder.getLast? = some "ingressConverter.Sync" ∧
     Facts.c09SyncOrder.head? = some "gatewayConverter.Sync" ∧
-    Facts.c09UpdateGlobalConfigCallers = ["syncFull"] := by
+    Facts.c09IngressConverterCreatedFirst = true ∧
+    Facts.c09NewConverterDynamic = ["options, c.globalConfig"] ∧
+    Facts.c09UpdateDynamicConfig =
+      ["if options.DynamicConfig == nil", "return", "c := &updater{options: options, logger: options.Logger}"] := by
   decide
 
 end HapVerif.C09
